@@ -386,7 +386,7 @@ fn max_depth(t: &Tree, idx: usize) -> u32 {
 pub fn run(ctx: &Ctx) -> i32 {
     let root_base = fw::verif_root().join("build").join(format!("scratch-c11-{}", std::process::id()));
     let _ = std::fs::create_dir_all(&root_base);
-    let n = ctx.tier.pick(300u64, 6_000u64);
+    let n = ctx.tier.pick(300u64, 100_000u64);
     fw::par_for(n, 4, |i| {
         let mut rng = Rng::for_case(ctx.seed, 0xC11, i);
         let before = ctx.distinct_count();
